@@ -610,10 +610,19 @@ def run_harness(binary, sub, requests, env_extra=None, timeout=900, shards=None)
 # ---------------------------------------------------------------- known findings
 def load_known(prop):
     p = os.path.join(VERIF, "known_findings.json")
-    if not os.path.exists(p):
-        return []
-    data = json.load(open(p))
-    return [e for e in data.get("findings", []) if e.get("property") == prop and e.get("status") == "known"]
+    out = []
+    if os.path.exists(p):
+        data = json.load(open(p))
+        out = [e for e in data.get("findings", []) if e.get("property") == prop and e.get("status") == "known"]
+    # the property's own meta file is the source known_findings.json is assembled from
+    # (tools/mkmanifest.py); read it too so a check works before the manifest is re-assembled
+    mp = os.path.join(VERIF, "props", prop.lower() + ".meta.json")
+    if os.path.exists(mp):
+        have = {e.get("id") for e in out}
+        for e in json.load(open(mp)).get("known_findings", []):
+            if e.get("status", "known") == "known" and e.get("id") not in have:
+                out.append(dict(e, property=prop, status="known"))
+    return out
 
 
 # ---------------------------------------------------------------- misc
